@@ -17,6 +17,8 @@ package table
 import (
 	"bytes"
 	"encoding/binary"
+	"errors"
+	"math"
 
 	"github.com/B1NARY-GR0UP/originium/pkg/bufferpool"
 	"github.com/B1NARY-GR0UP/originium/types"
@@ -24,6 +26,10 @@ import (
 )
 
 // Data Block
+// ErrFieldTooLarge is returned by the encoders for a key or value
+// which does not fit the 16-bit length fields of the block format
+var ErrFieldTooLarge = errors.New("key or value exceeds 65535 bytes")
+
 type Data struct {
 	Entries []types.Entry
 }
@@ -94,6 +100,11 @@ func (d *Data) Encode() ([]byte, error) {
 	w := utils.NewErrorWriter(buf)
 	var prevKey string
 	for _, entry := range d.Entries {
+		// lengths are stored as uint16, a larger field would silently wrap
+		if len(entry.Key) > math.MaxUint16 || len(entry.Value) > math.MaxUint16 {
+			return nil, ErrFieldTooLarge
+		}
+
 		lcp := utils.LCP(entry.Key, prevKey)
 		suffix := entry.Key[lcp:]
 
